@@ -442,8 +442,12 @@ def clause4_cursor(ctx, P):
         for v in Q.path_views(ctx, P, fb):
             if st.block in v.blocks:
                 n += 1
-                z = v.has_atom(lambda a, p: a[0] == "cmp" and Q.is_call_to(a[2], "socket_read") and a[3] == ("const", 0) and not Q._poleq(a, p))
-                m = v.has_atom(lambda a, p: a[0] == "cmp" and Q.is_call_to(a[2], "socket_read") and a[3] == ("const", -1) and not Q._poleq(a, p))
+                # if-form (cmp against the constant) or switch-form (case / default edge)
+                is_sr = lambda t: Q.is_call_to(t, "socket_read")
+                z = v.has_atom(lambda a, p: (a[0] == "cmp" and is_sr(a[2]) and a[3] == ("const", 0) and not Q._poleq(a, p)) or
+                               Q.const_relation(a, p, is_sr, 0) is False)
+                m = v.has_atom(lambda a, p: (a[0] == "cmp" and is_sr(a[2]) and a[3] == ("const", -1) and not Q._poleq(a, p)) or
+                               Q.const_relation(a, p, is_sr, -1) is False)
                 if not (z and m):
                     okv = False
         ctx.ob("C09.4 R-CURSOR", fb, "write_ptr:positive-only", okv and n > 0, "write_ptr is advanced on a path where the read returned 0 or -1")
@@ -555,7 +559,8 @@ def clause_wouldblock_source(ctx, P, cg):
     for v in Q.path_views(ctx, P, fb):
         if v.ret_const() == WB:
             nwb += 1
-            failed = v.has_atom(lambda a, p: a[0] == "cmp" and Q.is_call_to(a[2], "socket_read") and a[3] == ("const", -1) and Q._poleq(a, p))
+            failed = v.has_atom(lambda a, p: (a[0] == "cmp" and Q.is_call_to(a[2], "socket_read") and a[3] == ("const", -1) and Q._poleq(a, p)) or
+                                Q.const_relation(a, p, lambda t: Q.is_call_to(t, "socket_read"), -1) is True)
             if not failed:
                 okfb = False
     ctx.ob("C09.2 R-WHO", fb, "would-block-only-after-the-socket-said-so", okfb and nwb > 0,
